@@ -13,7 +13,7 @@ import (
 func (p *Program) Clone() *Program {
 	q := &Program{seq: p.seq, Invalid: p.Invalid}
 	for _, f := range p.Files {
-		nf := &File{Index: f.Index, Dir: f.Dir, Base: f.Base, Includes: append([]int{}, f.Includes...)}
+		nf := &File{Index: f.Index, Dir: f.Dir, Base: f.Base, Includes: append([]int{}, f.Includes...), Deleted: f.Deleted}
 		for _, d := range f.Defs {
 			nd := *d
 			nd.Items = append([]EnumItem{}, d.Items...)
@@ -453,4 +453,94 @@ func Breaking(before, after *Program) []Diag {
 	}
 	sort.Slice(out, func(i, j int) bool { return out[i].String() < out[j].String() })
 	return out
+}
+
+// --- twins: a second file with the same base name and the same content in another directory ---
+
+func remapRef(r *Ref, from, to int) *Ref {
+	if r == nil {
+		return nil
+	}
+	if r.File == from {
+		return &Ref{File: to, Name: r.Name}
+	}
+	return r
+}
+
+func remapType(t *TypeRef, from, to int) *TypeRef {
+	if t == nil {
+		return nil
+	}
+	return &TypeRef{Base: t.Base, Key: remapType(t.Key, from, to), Elem: remapType(t.Elem, from, to), Ref: remapRef(t.Ref, from, to)}
+}
+
+func remapVal(v *ConstVal, from, to int) *ConstVal {
+	if v == nil {
+		return nil
+	}
+	nv := *v
+	nv.Ref = remapRef(v.Ref, from, to)
+	nv.Items = nil
+	for _, it := range v.Items {
+		nv.Items = append(nv.Items, remapVal(it, from, to))
+	}
+	return &nv
+}
+
+func remapFields(fs []*FieldDef, from, to int) []*FieldDef {
+	var out []*FieldDef
+	for _, f := range fs {
+		nf := *f
+		nf.Type = remapType(f.Type, from, to)
+		nf.Default = remapVal(f.Default, from, to)
+		out = append(out, &nf)
+	}
+	return out
+}
+
+// copyFileAs fills dst (index dst.Index) with a copy of src's includes and
+// definitions in which references to src itself point to dst.
+func (p *Program) copyFileAs(src, dst *File) {
+	dst.Includes = append([]int{}, src.Includes...)
+	dst.Deleted = src.Deleted
+	dst.Defs = nil
+	for _, d := range src.Defs {
+		nd := *d
+		nd.File = dst.Index
+		nd.Type = remapType(d.Type, src.Index, dst.Index)
+		nd.Value = remapVal(d.Value, src.Index, dst.Index)
+		nd.Parent = remapRef(d.Parent, src.Index, dst.Index)
+		nd.Items = append([]EnumItem{}, d.Items...)
+		nd.Fields = remapFields(d.Fields, src.Index, dst.Index)
+		nd.Funcs = nil
+		for _, fn := range d.Funcs {
+			nfn := *fn
+			nfn.Ret = remapType(fn.Ret, src.Index, dst.Index)
+			nfn.Args = remapFields(fn.Args, src.Index, dst.Index)
+			nfn.Excs = remapFields(fn.Excs, src.Index, dst.Index)
+			nd.Funcs = append(nd.Funcs, &nfn)
+		}
+		dst.Defs = append(dst.Defs, &nd)
+	}
+}
+
+// AddTwin appends a file with the base name and content of file i in directory
+// dir (api/v1/users.thrift next to api/v2/users.thrift); nothing includes it.
+// It returns the twin's index.
+func (p *Program) AddTwin(i int, dir string) int {
+	src := p.Files[i]
+	dst := &File{Index: len(p.Files), Dir: dir, Base: src.Base}
+	p.Files = append(p.Files, dst)
+	p.copyFileAs(src, dst)
+	return dst.Index
+}
+
+// SyncTwin makes file j the twin of file i again (after edits to i).
+func (p *Program) SyncTwin(i, j int) { p.copyFileAs(p.Files[i], p.Files[j]) }
+
+// DropFile removes file j from the program for good (in every version).
+func (p *Program) DropFile(j int) {
+	p.Files[j].Deleted = true
+	p.Files[j].Defs = nil
+	p.Files[j].Includes = nil
 }
